@@ -450,6 +450,10 @@ impl VM {
                     eth.inner.replace(Some(val.clone()));
                     val
                 } else {
+                    // the named layer exists only when the type field selects it
+                    if eth.get_ethertype_raw() != EtherTypes::Vlan {
+                        return Ok(Rc::new(Object::Null));
+                    }
                     // Borrow the inner object and return the cloned object
                     // immediately so the borrowing is kept to the scope of the
                     // if let statement. This allows us to borrow the inner object
@@ -472,6 +476,10 @@ impl VM {
                     eth.inner.replace(Some(val.clone()));
                     val
                 } else {
+                    // the named layer exists only when the type field selects it
+                    if eth.get_ethertype_raw() != EtherTypes::Ipv4 {
+                        return Ok(Rc::new(Object::Null));
+                    }
                     if let Some(inner) = eth.inner.borrow().as_ref() {
                         return Ok(inner.clone());
                     }
@@ -492,6 +500,10 @@ impl VM {
                     eth.inner.replace(Some(val.clone()));
                     val
                 } else {
+                    // the named layer exists only when the type field selects it
+                    if eth.get_ethertype_raw() != EtherTypes::Ipv6 {
+                        return Ok(Rc::new(Object::Null));
+                    }
                     if let Some(inner) = eth.inner.borrow().as_ref() {
                         return Ok(inner.clone());
                     }
@@ -579,6 +591,10 @@ impl VM {
                     vlan.inner.replace(Some(val.clone()));
                     val
                 } else {
+                    // the named layer exists only when the type field selects it
+                    if vlan.get_ethertype_raw() != EtherTypes::Vlan {
+                        return Ok(Rc::new(Object::Null));
+                    }
                     // Borrow the inner object and return the cloned object
                     // immediately so the borrowing is kept to the scope of the
                     // if let statement. This allows us to borrow the inner object
@@ -602,6 +618,10 @@ impl VM {
                     vlan.inner.replace(Some(val.clone()));
                     val
                 } else {
+                    // the named layer exists only when the type field selects it
+                    if vlan.get_ethertype_raw() != EtherTypes::Ipv4 {
+                        return Ok(Rc::new(Object::Null));
+                    }
                     if let Some(inner) = vlan.inner.borrow().as_ref() {
                         return Ok(inner.clone());
                     }
@@ -777,6 +797,10 @@ impl VM {
                     ipv4.inner.replace(Some(val.clone()));
                     val
                 } else {
+                    // the named layer exists only when the type field selects it
+                    if ipv4.get_protocol_raw() != Protocols::Udp {
+                        return Ok(Rc::new(Object::Null));
+                    }
                     if let Some(inner) = ipv4.inner.borrow().as_ref() {
                         return Ok(inner.clone());
                     }
@@ -795,6 +819,10 @@ impl VM {
                     ipv4.inner.replace(Some(val.clone()));
                     val
                 } else {
+                    // the named layer exists only when the type field selects it
+                    if ipv4.get_protocol_raw() != Protocols::Tcp {
+                        return Ok(Rc::new(Object::Null));
+                    }
                     if let Some(inner) = ipv4.inner.borrow().as_ref() {
                         return Ok(inner.clone());
                     }
@@ -813,6 +841,10 @@ impl VM {
                     ipv4.inner.replace(Some(val.clone()));
                     val
                 } else {
+                    // the named layer exists only when the type field selects it
+                    if ipv4.get_protocol_raw() != Protocols::Ipv6 {
+                        return Ok(Rc::new(Object::Null));
+                    }
                     if let Some(inner) = ipv4.inner.borrow().as_ref() {
                         return Ok(inner.clone());
                     }
@@ -938,6 +970,10 @@ impl VM {
                     ipv6.inner.replace(Some(val.clone()));
                     val
                 } else {
+                    // the named layer exists only when the type field selects it
+                    if ipv6.get_next_header_raw() != NextHeaders::Udp {
+                        return Ok(Rc::new(Object::Null));
+                    }
                     if let Some(inner) = ipv6.inner.borrow().as_ref() {
                         return Ok(inner.clone());
                     }
@@ -956,6 +992,10 @@ impl VM {
                     ipv6.inner.replace(Some(val.clone()));
                     val
                 } else {
+                    // the named layer exists only when the type field selects it
+                    if ipv6.get_next_header_raw() != NextHeaders::Tcp {
+                        return Ok(Rc::new(Object::Null));
+                    }
                     if let Some(inner) = ipv6.inner.borrow().as_ref() {
                         return Ok(inner.clone());
                     }
